@@ -751,7 +751,8 @@ def main():
         fresh = [x for x in viol if not known_match(prop, x, known)]
         for f in listed[:4] + fresh[:8]:
             def still(lines, f=f):
-                r = run_scenarios([lines])[0]
+                # (a candidate of an implementation that crashes or hangs must not cost more than a minute)
+                r = run_scenarios([lines], timeout=60)[0]
                 return any(x.kind == 'violation' and sig_of(x) == sig_of(f) for x in judge(r, pdef))
             if known_match(prop, f, known):
                 f2 = f            # already recognised as a listed finding: no need to minimise it again
